@@ -3,6 +3,12 @@ import json, random
 from . import lib
 
 
+def workers(n):
+    """number of TLC workers; VERIF_MAX_WORKERS caps it (shared machines)"""
+    import os
+    return max(1, min(n, int(os.environ.get("VERIF_MAX_WORKERS", n))))
+
+
 def boundary(w):
     """Boundary bit patterns of width w (as unsigned ints): 0, 1, all-ones, alternating, signed min/max and neighbours."""
     m = (1 << w) - 1
@@ -67,7 +73,7 @@ def n_elems(rec):
 
 def small(rec, idx):
     """the failing element of a batch, for the replay file"""
-    out = {k: rec.get(k) for k in ("id", "op", "sg", "w", "k", "st", "sa", "sb", "sf", "s1", "s0", "so", "out", "msg", "enc")}
+    out = {k: rec.get(k) for k in ("id", "op", "sg", "w", "wb", "k", "st", "sa", "sb", "sf", "s1", "s0", "so", "out", "msg", "enc")}
     if idx and rec.get("out") == "ok":
         i = idx - 1
         for f in ("r", "r2"):
@@ -101,3 +107,26 @@ def run_rel(chk, jobs, tag, workers=4, timeout=1500):
     by_id = {r["id"]: r for r in recs}
     bad = [(by_id[v["id"]], v) for v in lib.printed_json(res, "BAD")]
     return recs, bad
+
+
+def replay(path):
+    """bin/check <ID> --replay <violation file>: re-executes the one failing job against /repo and lets TLC judge it again."""
+    import os
+    d = json.load(open(path))
+    rp = d["replay"]
+    jobs = [j for j in lib.read_ndjson(rp["jobs_file"]) if j["id"] == rp["job_id"]]
+    if not jobs:
+        raise lib.ToolError("job %s not found in %s" % (rp["job_id"], rp["jobs_file"]))
+    wd = os.path.join(lib.WORK, d["property"])
+    jp, op = os.path.join(wd, "replay_job.ndjson"), os.path.join(wd, "replay_trace.ndjson")
+    lib.write_ndjson(jp, jobs)
+    lib.harness([rp["cmd"], jp, op], binary="bitrel")
+    spec = "BitOpsTrace" if rp["cmd"] == "ops" else "RelTrace"
+    res = lib.tlc(spec, "MC_%s.cfg" % spec, env={"TRACE": op}, workers=1, coverage=False)
+    bad = lib.printed_json(res, "BAD")
+    for b in bad:
+        print("REPRODUCED:", json.dumps(b))
+        print("VIOLATION property=%s replay=%s" % (d["property"], path))
+    if not bad:
+        print("not reproduced")
+    return 1 if bad else 0
